@@ -56,7 +56,9 @@ func c09Build() (*c09world, error) {
 	// a failure two calls deep (the error text carries the chain of call sites)
 	b = b.AddTemplateString("f2.soy", "{namespace p.three}\n{alias p.one}\n{alias p.two}\n/** @param x */\n{template .failsdeep}\nd{call .failsmid data=\"all\"/}\n{/template}\n/** @param x */\n{template .failsmid}\nm{call two.show/}{call one.fails data=\"all\"/}\n{/template}\n"+
 		// randomInt(1) is always 0: deterministic output from the random source every render shares
-		"/** */\n{template .rnd}\n{foreach $i in [1, 2, 3]}{if randomInt(1) == 0}r{/if}{/foreach}\n{/template}\n")
+		"/** @param? a\n * @param? l */\n{template .rnd}\n{foreach $i in [1, 2, 3]}{if randomInt(1) == 0}r{/if}{/foreach}"+
+		// a translated plural message (placeholders are looked up in the shared tree on every render)
+		"{msg desc=\"p\"}{plural length($l)}{case 1}one {$a} item{default}some {$a} items here{/plural}{/msg}\n{/template}\n")
 	reg, err := b.Compile()
 	if err != nil {
 		return nil, err
@@ -91,7 +93,7 @@ func c09Ops() []c09op {
 		render("p.two.show", 0, false),
 		render("p.one.fails", 0, false),
 		render("p.three.failsdeep", 0, false),
-		render("p.three.rnd", 0, false),
+		render("p.three.rnd", 0, true),
 		{"js es5 file#0", func(w *c09world) string {
 			var buf bytes.Buffer
 			err := soyjs.Write(&buf, w.reg.SoyFiles[0], soyjs.Options{})
